@@ -10,11 +10,11 @@ GFUNV = "searcher::Searcher::get_function_value"
 # function -> names its arm must use; `not` lists names of siblings it must not use
 PRIMITIVES = {
     "Lower": (["to_lowercase"], ["to_uppercase"]), "Upper": (["to_uppercase"], ["to_lowercase"]),
-    "InitCap": (["split_whitespace", "capitalize", "to_lowercase", "join"], []),
+    "InitCap": (["split_whitespace", "capitalize", "to_lowercase", "join"], ["len"]),
     "Length": (["chars", "count"], ["len"]),
     "ToBase64": (["encode"], ["decode"]), "FromBase64": (["decode"], ["encode"]),
     "Concat": (["join"], []), "ConcatWs": (["join"], []),
-    "Substring": (["chars", "skip", "take"], []),
+    "Substring": (["chars", "skip", "take", "count"], ["len"]),
     "Replace": (["replace"], ["replacen"]),
     "Trim": (["trim"], ["trim_start", "trim_end"]), "LTrim": (["trim_start"], ["trim", "trim_end"]),
     "RTrim": (["trim_end"], ["trim", "trim_start"]),
